@@ -244,6 +244,9 @@ Definition wide_to_long (s : str) : Z :=
   let v := value_of_digits 0 (fst (take_digits s)) in
   if neg then - v else v.
 
+Definition starts_with_minus (s : str) : bool :=
+  match skip_ws s with c :: _ => N.eqb c c_minus | [] => false end.
+
 Definition long_to_double (v : Z) : dbl :=
   match v with
   | Z0 => S754_zero false
@@ -259,7 +262,9 @@ Definition string_to_number (s0 : str) : dbl :=
       let '(ok, dot) := do_validate s in
       if negb ok then S754_nan
       else if negb dot && (Nat.ltb (length s) long_hack_threshold)
-      then long_to_double (wide_to_long s)
+      then let v := wide_to_long s in
+           (* a long has no negative zero: "-0" is answered as -0.0 *)
+           if Z.eqb v 0 && starts_with_minus s then S754_zero true else long_to_double v
       else atof s
   end.
 
